@@ -287,6 +287,12 @@ func (s *Session) setStorageCallbacks() {
 			return true
 		}
 
+		if !s.IsLogged() {
+			// like Heartbeat and TestRequest: nothing is retransmitted to a peer that is not logged on
+			s.RejectMessage(data)
+			return true
+		}
+
 		resendMessages, err := s.messageStorage.Messages(fix.StorageID{
 			Sender: s.LogonSettings.SenderCompID,
 			Target: s.LogonSettings.TargetCompID,
